@@ -40,5 +40,10 @@ Task(r, s, c) == E("CreateTask", [t |-> "t1", caller |-> "w1", resp |-> r, stat 
 c_PREFIX_COV == {Append(WPrefix, Task(v[1], v[2], v[3])) :
                    v \in {<<0, 0, 0>>, <<0, 1, 1>>, <<1, 2, 2>>}}
 c_PREFIX_COVT == {Append(WPrefix, Task(r, s, c)) : r \in {0, 1, 2}, s \in {0, 1, 2}, c \in {0, 1, 2}}
-c_DEVS_ALL == {"EmptySigPhase1", "SymDiff", "ChallengeWrapNil"}
+\* deviations of the current tree (EmptySigPhase1 left with fix 9d0a8b8, ChallengeWrapNil with fix 4ac3ef5)
+c_DEVS_ALL == {"SymDiff"}
+\* deviations switched on in the GENERATING model (class cover, -simulate): every deviation the tree has or ever had,
+\* so that the behaviours that triggered a repaired defect keep being generated and replayed (DESIGN 7: "its
+\* triggering behaviours stay in the normal lane forever"). The strict lane and the guard use c_DEVS_ALL / t_DEVS.
+c_DEVS_GEN == {"EmptySigPhase1", "SymDiff", "ChallengeWrapNil"}
 =============================================================================
